@@ -120,7 +120,10 @@ def build_system(ctx, shape, assume_nonneg=True, sysname="sys", rt="none"):
             else:
                 sysobj.add_source(comp, **kw)
         else:
-            sysobj.add_comp(ps if kind == "PMux" else ps[0], comp=comp, **kw)
+            byname = {n["name"]: n for n in shape["nodes"]}
+            # the API resolves a parent given by its rail name as well as by its component name
+            refs = [(byname[p].get("rail") if (shape.get("address_by_rail") and byname[p].get("rail")) else p) for p in ps]
+            sysobj.add_comp(refs if kind == "PMux" else refs[0], comp=comp, **kw)
         info[name] = {"kind": kind, "P": P, "parents": ps, "conf": None, "comp": comp, "nd": nd}
     if phases:
         for n, p in enumerate(phases):
@@ -158,6 +161,18 @@ def build_system(ctx, shape, assume_nonneg=True, sysname="sys", rt="none"):
                 sysobj.set_sys_phases({**{p: 1.0 for p in shape["redefine_phases"]}})
             sysobj.set_sys_phases(dict(durations))
     return sysobj, info, durations
+
+
+def finish(sysobj, info, shape):
+    """Delete the nodes flagged ``dummy`` (leaves a hole in the node numbering: the iterate vectors become longer than the
+    number of components) -> the shape restricted to the live nodes."""
+    dead = [n["name"] for n in shape["nodes"] if n.get("dummy")]
+    for nm in dead:
+        sysobj.del_comp(nm)
+        info.pop(nm, None)
+    if not dead:
+        return shape
+    return {**shape, "nodes": [n for n in shape["nodes"] if not n.get("dummy")]}
 
 
 # ---------------------------------------------------------------------------------------------------
